@@ -33,7 +33,8 @@ TOL_LATTICE = 1e-8       # relative, both velocities (the statement's figure; wo
 TOL_ARC_TIGHT = 1e-8     # seeded arcs: propagated end point accepted outright below this (relative)
 TOL_ARC_V1 = 5e-7        # otherwise: admissible relative error of the returned v1 (Battin iterates to 1.48e-8 in its
                          # own variable x; 9e-8 in v1 is the worst seen), propagated to the end point to first order
-TOL_RADAR_KM = 1e-6      # km: radarObs2eciPosition against the true target position
+TOL_RADAR_KM = 1e-6      # km, plus TOL_RADAR_REL * range: radarObs2eciPosition against the true target position
+TOL_RADAR_REL = 5e-9     # (worst measured 1.3e-9 of the range: the frame rotations are inverse only to that level)
 START = datetime(2021, 3, 30, 6, 0, 0)
 
 
@@ -172,7 +173,8 @@ def seeded_arcs(ctx: Ctx, sink: Sink, I: Impl, rng: random.Random):
             ep = float(np.linalg.norm(end[:3] - x2[:3]) / np.linalg.norm(x2[:3]))
             ev = _vrel(end[3:], np.asarray(vb))
             tol_p = tol_v = TOL_ARC_TIGHT
-            if ep > tol_p or ev > tol_v:
+            bounded = ep > tol_p or ev > tol_v
+            if bounded:
                 # near a full revolution of an eccentric orbit the end point amplifies an error of v1
                 # by orders of magnitude: bound by the first-order sensitivity (finite differences
                 # through the same propagator)
@@ -186,12 +188,12 @@ def seeded_arcs(ctx: Ctx, sink: Sink, I: Impl, rng: random.Random):
                           f"{name}: propagating r1 with the returned v1 for the time of flight misses r2 by {ep:.3g} |r2| "
                           f"and the returned v2 by {ev:.3g} (allowed {tol_p:.3g}, {tol_v:.3g}; e = {ecc:.4f}, transfer {math.degrees(dnu):.2f} deg, tof/period = {tof / period:.4f})",
                           dict(rp, v1=np.asarray(va).tolist(), v2=np.asarray(vb).tolist(), propagated=end.tolist()))
-            else:
+            elif bounded:
                 worst[name][0] = max(worst[name][0], ep / tol_p)
                 worst[name][1] = max(worst[name][1], ev / tol_v)
     ctx.traces_validated += n_arc
     ctx.extra["seeded_arcs"] = n_arc
-    ctx.extra["worst_seeded_arc_error_over_allowed_pos_vel"] = worst
+    ctx.extra["worst_error_over_allowed_among_sensitivity_bounded_arcs_pos_vel"] = worst
     ctx.extra["repo_kepler_solver_failures_replaced_by_fallback"] = fallbacks
     ctx.extra["seeded_arcs_judged_with_sensitivity_bound"] = amplified
 
@@ -244,14 +246,14 @@ def radar_inversion(ctx: Ctx, sink: Sink, I: Impl, rng: random.Random):
             sink.fail(f"radar-inversion-exception-{type(ex).__name__}", f"measurement / inversion raised {ex!r}", rp)
             continue
         err = float(np.linalg.norm(pos - tgt))
-        if not err <= TOL_RADAR_KM * max(1.0, obs.range_km / 1000.0):
+        if not err <= TOL_RADAR_KM + TOL_RADAR_REL * obs.range_km:
             sink.fail("radar-inversion-position", f"radarObs2eciPosition misses the observed target by {err:.3g} km (range {obs.range_km:.1f} km)",
                       dict(rp, az=obs.azimuth_rad, el=obs.elevation_rad, range_km=obs.range_km, recovered=pos.tolist()))
         else:
-            worst = max(worst, err)
+            worst = max(worst, err / obs.range_km)
     ctx.traces_validated += n_obs
     ctx.extra["radar_observations_inverted"] = n_obs
-    ctx.extra["worst_radar_inversion_km"] = worst
+    ctx.extra["worst_radar_inversion_error_over_range"] = worst
 
 
 # -------------------------------------------------------------------------------------- IOD
@@ -265,19 +267,23 @@ class IodBench:
         self.I = I
         self.db = su.reset_db()
         self.Epoch = Epoch
-        self.sat, self.sen = 40001, 50001
-        self.db.insertData(AgentModel(unique_id=self.sat, name="target"), AgentModel(unique_id=self.sen, name="radar"))
+        self.AgentModel = AgentModel
+        self.sat, self.sen = 40000, 39999
+        self.db.insertData(AgentModel(unique_id=self.sen, name="radar"))
         self.jd0 = float(I.dt2jd(START))
         self.epochs: set = set()
-        self.t_base = 0
+        self.k = 0
 
     def run(self, solver, x1, x2, tof_nominal: float, sensor_seed: random.Random):
         """Store the first observation, call determineNewEstimateState with the second one.
-        Every case gets its own time window of the scenario so that earlier rows do not interfere."""
+        Every case observes its own target id (rows of earlier cases stay in the database but
+        belong to other targets); the first epoch walks through one day of scenario time."""
         I = self.I
-        t1 = self.t_base + 60
+        self.k += 1
+        self.sat += 1
+        self.db.insertData(self.AgentModel(unique_id=self.sat, name=f"target{self.k}"))
+        t1 = 60 + 97 * (self.k % 890)
         t2 = t1 + int(round(tof_nominal))
-        self.t_base = t2 + 600
         jd1 = float(I.ScenarioTime(t1).convertToJulianDate(I.JulianDate(self.jd0)))
         jd2 = float(I.ScenarioTime(t2).convertToJulianDate(I.JulianDate(self.jd0)))
         when1, when2 = START + timedelta(seconds=t1), START + timedelta(seconds=t2)
@@ -386,7 +392,7 @@ def run(ctx: Ctx):
         f"first-order image of a {TOL_ARC_V1} relative error of the returned v1 (sensitivity by finite differences through the same propagator; "
         "Battin's iteration tolerance 1.48e-8 is in its own variable); an independent elliptic propagator replaces the repository's only if it raises (counted)",
         "the solvers are told the true sense: +1 for transfer angles below 180 deg, -1 above",
-        f"radar inversion to {TOL_RADAR_KM} km per 1000 km of range (min 1e-6 km); epochs are whole seconds, converted with datetimeToJulianDate",
+        f"radar inversion to {TOL_RADAR_KM} km + {TOL_RADAR_REL} x range (worst measured 1.3e-9 x range); epochs are whole seconds, converted with datetimeToJulianDate",
         "IOD: observation spacing is a whole number of seconds >= 61; the velocity tolerance allows for the 4e-5 s resolution of Julian dates "
         "(|v| (1e-7 + 3 (|dt_jd - dt| + 5e-5 s)/dt)); position 1e-5 km; truth at the second epoch from the exact rotation (lattice) or an independent elliptic propagator (seeded)",
         "IOD determines the transfer sense itself from a circular-orbit period estimate; spacings are kept below 40 % of the period as the statement says",
